@@ -57,7 +57,7 @@ const (
 	tPROCTITLE = 1327
 )
 
-var reasmTypes = []uint16{tSYSCALL, tSYSCALL, tPATH, tPATH, tCWD, tEXECVE, tEOE, tEOE, tPROCTITLE, 1100, 1112, 1200, 1299, 2100, 2500, 0, 65535, 1301, 1326, 1328, 2099, 1400}
+var reasmTypes = []uint16{tSYSCALL, tSYSCALL, tPATH, tPATH, tCWD, tEXECVE, tEOE, tEOE, tPROCTITLE, 1100, 1112, 1200, 1299, 2100, 2500, 0, 65535, 1301, 1326, 1328, 2099, 1400, 1005, 1006, 1099, 1000, 1199, 1250}
 
 // recStream records callbacks.
 type recStream struct {
@@ -237,7 +237,10 @@ func genReasmCase(rng *rand.Rand, prop string, maxOps int) RCase {
 	}
 	n := 1 + rng.Intn(maxOps)
 	const W = 1 << 24
-	switch rng.Intn(6) {
+	switch rng.Intn(7) {
+	case 6:
+		// the window straddles 2^31 (the sign boundary of a 32-bit comparison), or 2^16 / 2^24 multiples
+		c.Base = []uint32{0x7FFFFFFF, 0x80000000, 0xFFFF, 0x1000000, 0xFFFFFF}[rng.Intn(5)] - uint32(rng.Intn(40))
 	case 0:
 		c.Base = uint32(0xFFFFFFFF - uint32(rng.Intn(200)))
 	case 1:
